@@ -167,6 +167,9 @@ var c10Exceptions = []c10Exception{
 	{"(*dh/sidh.KEM).decrypt", "", "called by Decapsulate only, after its len(ciphertext) == CiphertextSize check; pkLen + i < pkLen + c1Len = len(ctext)"},
 }
 
+// c10ErrDropExceptions: callees on input-derived data whose error may be ignored.
+var c10ErrDropExceptions = map[string]string{}
+
 var c10PanicExceptions = []c10Exception{
 	{"(*cipher/ascon.Cipher).Open", "len(param#2)!=16", "crypto/cipher.AEAD contract: the nonce is chosen by the caller's protocol, not parsed from the ciphertext; Open documents that the nonce must be NonceSize() bytes long"},
 	{"sign/bls.VerifyAggregate", "", "default arm of the type switch over the key group K, which the type constraint KeyGroup restricts to G1 | G2; not selected by the input (the length comparison merely dominates it)"},
@@ -501,6 +504,66 @@ func checkC10(c *Ctx) {
 			}
 			verdicts["call-undecided"]++
 			c.undecided("C10.callsite", construct, fmt.Sprintf("needed for %s: cannot prove %s ≥ 0", q.why, g.String()), p.pos(e.Site.Pos()))
+		}
+	}
+	// a parser applied to untrusted bytes whose error is dropped while its value is used: the value is nil / zero
+	// exactly when the input is malformed
+	{
+		errT := types.Universe.Lookup("error").Type()
+		nDrop, nOK := 0, 0
+		for _, f := range funcs {
+			for _, b := range f.Blocks {
+				for _, in := range b.Instrs {
+					call, ok := in.(*ssa.Call)
+					if !ok {
+						continue
+					}
+					tup, ok := call.Type().(*types.Tuple)
+					if !ok || tup.Len() < 2 || !types.Identical(tup.At(tup.Len()-1).Type(), errT) {
+						continue
+					}
+					var args []ssa.Value
+					if call.Call.IsInvoke() {
+						args = append(args, call.Call.Value)
+					}
+					args = append(args, call.Call.Args...)
+					tainted := false
+					for _, a := range args {
+						if t.isTainted(a) {
+							tainted = true
+						}
+					}
+					if !tainted {
+						continue
+					}
+					errUsed, otherUsed := false, false
+					for _, r := range *call.Referrers() {
+						if ex, ok := r.(*ssa.Extract); ok {
+							if ex.Index == tup.Len()-1 {
+								errUsed = len(*ex.Referrers()) > 0
+							} else if len(*ex.Referrers()) > 0 {
+								otherUsed = true
+							}
+						}
+					}
+					if errUsed || !otherUsed {
+						nOK++
+						continue
+					}
+					nDrop++
+					callee := p.staticCalleeName(&call.Call)
+					construct := fname(f) + ": the error of " + callee + " on input-derived data is examined before its value is used"
+					if why, ok := c10ErrDropExceptions[callee]; ok {
+						c.ok("C10.errdrop", construct, "exception: "+why, p.pos(call.Pos()))
+						continue
+					}
+					c.bad("C10.errdrop", construct, "the error result is discarded and the value result is used: on malformed input the value is nil or zero", p.pos(call.Pos()))
+				}
+			}
+		}
+		c.count("errdrop_examined", nOK)
+		if nDrop == 0 {
+			c.ok("C10.errdrop", "calls on input-derived data that return (value, error)", fmt.Sprintf("%d calls: every one has its error examined (or its value unused)", nOK), "")
 		}
 	}
 	// explicit panics under tainted conditions
